@@ -131,7 +131,8 @@ fn one<S: Inner + 'static>(ctx: &mut Ctx, i: usize, inner: S) {
             if let Some(id) = ids.last().cloned() {
                 let opts = webauthn::CredentialRequestOptions { public_key: webauthn::PublicKeyCredentialRequestOptions {
                     challenge: ctx.rng.bytes(32).into(), timeout: None, rp_id: Some("example.com".into()),
-                    allow_credentials: Some(vec![PublicKeyCredentialDescriptor { ty: PublicKeyCredentialType::PublicKey, id: id.clone().into(), transports: None }]),
+                    // named, or - the discoverable flow - not named at all / an empty list
+                    allow_credentials: match step % 3 { 0 => Some(vec![PublicKeyCredentialDescriptor { ty: PublicKeyCredentialType::PublicKey, id: id.clone().into(), transports: None }]), 1 => None, _ => Some(vec![]) },
                     user_verification: *ctx.rng.pick(&[UserVerificationRequirement::Preferred, UserVerificationRequirement::Discouraged]), hints: None,
                     attestation: Default::default(), attestation_formats: None,
                     extensions: Some(AuthenticationExtensionsClientInputs { cred_props: None, prf: Some(prf_in(ctx)), prf_already_hashed: None }) } };
@@ -175,7 +176,7 @@ fn one<S: Inner + 'static>(ctx: &mut Ctx, i: usize, inner: S) {
             }
             if let Some(id) = ctap_id {
                 let req = get_assertion::Request { rp_id: "example.com".into(), client_data_hash: ctx.rng.bytes(32).into(),
-                    allow_list: Some(vec![PublicKeyCredentialDescriptor { ty: PublicKeyCredentialType::PublicKey, id: id.into(), transports: None }]),
+                    allow_list: match step % 3 { 1 => None, 2 => Some(vec![]), _ => Some(vec![PublicKeyCredentialDescriptor { ty: PublicKeyCredentialType::PublicKey, id: id.into(), transports: None }]) },
                     extensions: Some(get_assertion::ExtensionInputs {
                         hmac_secret: if step % 2 == 1 { Some(passkey_types::ctap2::extensions::HmacGetSecretInput { key_agreement: ciborium::value::Value::Null, salt_enc: ctx.rng.bytes(32).into(), salt_auth: vec![0u8; 16].into(), pin_uv_auth_protocol: None }) } else { None },
                         prf: Some(AuthenticatorPrfInputs { eval: Some(AuthenticatorPrfValues { first: [9u8; 32], second: None }), eval_by_credential: None }) }),
@@ -194,7 +195,7 @@ fn one<S: Inner + 'static>(ctx: &mut Ctx, i: usize, inner: S) {
         }
         // --- U2F
         let (challenge, application): ([u8; 32], [u8; 32]) = (ctx.rng.bytes(32).try_into().unwrap(), ctx.rng.bytes(32).try_into().unwrap());
-        let handle = if i % 4 == 3 { vec![] } else { ctx.rng.bytes_in(1, 64) };
+        let handle = match i % 4 { 3 => vec![], 2 => ctx.rng.bytes(32), _ => ctx.rng.bytes_in(1, 64) };      // empty, exactly the size of a private scalar, any other
         let res = guarded(|| crate::env::block_on(U2fApi::register(client.authenticator_mut(), RegisterRequest { challenge, application }, &handle)));
         let secrets = secrets_of(&all(&client));
         match res {
